@@ -62,6 +62,8 @@ pub struct Registry {
     /// ticks seen per site since last reset (used to enumerate injection points)
     pub ticks: BTreeMap<Site, u64>,
     pub fired: bool,
+    /// while set, ticks are neither counted nor able to fire (harness-internal probing)
+    pub suspended: bool,
 }
 
 thread_local! {
@@ -88,6 +90,15 @@ pub fn disarm() {
     reg(|r| r.armed = None);
 }
 
+/// Ticks are ignored until `resume` (used around harness-internal probing).
+pub fn suspend() {
+    reg(|r| r.suspended = true);
+}
+
+pub fn resume() {
+    reg(|r| r.suspended = false);
+}
+
 pub fn reset_ticks() {
     reg(|r| r.ticks.clear());
 }
@@ -101,6 +112,9 @@ pub fn ticks(site: Site) -> u64 {
 pub fn tick(site: Site) {
     let fire = REG.with(|r| {
         let mut r = r.borrow_mut();
+        if r.suspended {
+            return false;
+        }
         *r.ticks.entry(site).or_insert(0) += 1;
         match r.armed {
             Some((s, 0)) if s == site => {
